@@ -100,7 +100,9 @@ def bad_mask(rng, N, C, sp):
 def make_cases(ctx, n):
     rng = ctx.rng
     cases = []
-    kinds = ["pw", "pw", "ncc", "lcc", "wlcc", "dice", "tversky", "pw", "lcc", "wlcc"]
+    kinds = ["pw", "pw", "ncc", "lcc", "wlcc", "dice", "tversky", "tversky", "lcc", "wlcc"]
+    tv_count = 0
+    mod_count = 0
     for i in range(n):
         k = kinds[i % len(kinds)]
         D, N, C, sp = shapes(rng)
@@ -123,6 +125,17 @@ def make_cases(ctx, n):
             else:
                 c["mask"] = None
             c["norm"] = rng.choice([None, None, 0.5, 4.0, -1.0])
+            if c["fn"] in ("huber", "smooth_l1"):
+                mod_count += 1
+            if c["fn"] in ("huber", "smooth_l1") and mod_count % 2 == 0:
+                c["param"] = [0.25, 2.5][(mod_count // 4) % 2]      # never the default 1.0
+                # through the module wrapper (HuberImageLoss(delta) / SmoothL1ImageLoss(beta)): reduction is 'mean'
+                c["module"] = True
+                c["reduction"] = "mean"
+                if c.get("malformed"):
+                    c["mask"], c["malformed"] = mask_for(rng, form, N, C, sp, binary_mask), False
+                if c["norm"] is not None and c["norm"] <= 0:
+                    c["norm"] = None
         elif k == "ncc":
             c["x"] = tensor(rng, shp, lambda: dy(rng))
             c["y"] = tensor(rng, shp, lambda: dy(rng))
@@ -163,14 +176,22 @@ def make_cases(ctx, n):
             c["loss"] = rng.random() < 0.4
             c["mask"] = mask_for(rng, form, N, C, sp, False) if rng.random() < 0.6 else None
         else:
+            # cycle deterministically through index / loss, the focal exponents, weights and channel counts
+            j = tv_count
+            tv_count += 1
+            C = [1, 2][j % 2]
+            shp = [N, C] + sp
             soft = rng.random() < 0.5
             g = (lambda: dy(rng, 0, 1)) if soft else (lambda: float(rng.random() < 0.5))
             c["x"] = tensor(rng, shp, g)
             c["y"] = tensor(rng, shp, g)
             c["eps"] = rng.choice([1e-15, 1 / 1024, 0.5])
             c["alpha"], c["beta"] = rng.choice([(0.5, 0.5), (0.25, 0.75), (0.75, 0.5)])
-            c["loss"] = rng.random() < 0.3
-            c["mask"] = mask_for(rng, ["N1", "NC"][i % 2], N, C, sp, False) if rng.random() < 0.5 else None
+            c["loss"] = (j // 2) % 3 != 0
+            if c["loss"]:
+                c["gamma"] = [None, 1, 2, 3, 0.5][(j // 6) % 5]
+                c["malformed"] = c["gamma"] == 0.5
+            c["mask"] = mask_for(rng, ["N1", "NC"][(j // 2) % 2], N, C, sp, False) if (j // 4) % 2 == 0 or j % 4 < 2 else None
         cases.append(c)
     return cases
 
@@ -250,8 +271,13 @@ def model_term(c):
         sc = f"({ds})" if not c.get("loss") else f"(fun p t w => @fsub QcF (@f1 QcF) ({ds} p t w))"
         return f"b_overlap (K:=QcF) {sc} {r} {x} {y} {coq_mask(c.get('mask'))}"
     if k == "tversky":
-        ti = f"tversky_index (K:=QcF) {qc(c['alpha'])} {qc(c['beta'])} {qc(c['eps'])}"
-        sc = f"({ti})" if not c.get("loss") else f"(fun p t w => @fsub QcF (@f1 QcF) ({ti} p t w))"
+        abe = f"{qc(c['alpha'])} {qc(c['beta'])} {qc(c['eps'])}"
+        if c.get("loss"):
+            if c.get("gamma") == 0.5:
+                return "(@None (list Qc))"        # gamma < 1 is rejected
+            sc = f"(tversky_loss (K:=QcF) {int(c.get('gamma') or 0)} {abe})"
+        else:
+            sc = f"(tversky_index (K:=QcF) {abe})"
         return f"b_overlap (K:=QcF) {sc} {r} {x} {y} {coq_mask(c.get('mask'))}"
     raise KeyError(k)
 
@@ -270,18 +296,6 @@ def f32_path(c):
     return c["kind"] in ("ncc", "lcc", "wlcc", "dice", "tversky")
 
 
-def known_class(c, r):
-    """the recorded finding (key) that fully accounts for a disagreement on this case, if it is listed"""
-    key = None
-    if c["kind"] == "tversky" and "error" in r:
-        if c.get("loss") and r["error"] == "TypeError" and "gamma" in r.get("msg", ""):
-            key = "C16:tversky_loss:raises"
-        elif c.get("mask") is not None and c["x"]["shape"][1] == 1 and r["error"] == "ValueError" and "'weight' shape" in r.get("msg", ""):
-            key = "C16:tversky_index:weight-binary-raises"
-    known, _ = vlib.load_findings()
-    return key if key in known else None
-
-
 def run_shard(ctx, cases, res, name):
     lines = [HEADER]
     names = []
@@ -289,15 +303,18 @@ def run_shard(ctx, cases, res, name):
     for i, (c, r) in enumerate(zip(cases, res)):
         if "error" in r:
             impl = "None"
-            kc = known_class(c, r)
-            if kc:
-                _n = f"correspondence: disagreement(s) accounted for by recorded finding {kc}"
-                _n in ctx.notes or ctx.notes.append(_n)
-                continue
             if r["error"] not in ("ValueError", "RuntimeError", "IndexError"):
                 failures.append({"why": f"implementation raised {r['error']} (not a shape/argument rejection)", "impl": r, "case": brief(c)})
                 continue
         else:
+            if any(v != v or v in (float("inf"), float("-inf")) for v in r["val"]):
+                has_mask = any(c.get(k) is not None for k in ("mask", "smask", "tmask"))
+                if c["reduction"] == "mean" and has_mask:
+                    _n = "correspondence: cases whose (product) mask sums to zero give 0/0 in 'mean' and are skipped (outside the model's guard)"
+                    _n in ctx.notes or ctx.notes.append(_n)
+                    continue
+                failures.append({"why": "implementation returns a non-finite value", "impl": r, "case": brief(c)})
+                continue
             impl = "(Some " + coq_list([qc(v) for v in r["val"]]) + ")"
         tol = "t32" if f32_path(c) else "t64"
         lines.append(f"Definition c{i} : bool := ovclose {tol} ({model_term(c)}) {impl}.")
@@ -384,11 +401,6 @@ def explains(broken_item, found):
     explain exactly the correspondence disagreements they cause."""
     b = broken_item
     keys = {v.key for v in found}
-    if b.startswith("correspondence:"):
-        if "unexpected keyword argument 'gamma'" in b:
-            return "C16:tversky_loss:raises" in keys
-        if "'weight' shape must be compatible" in b and '"kind": "tversky"' in b:
-            return "C16:tversky_index:weight-binary-raises" in keys
     known, _ = vlib.load_findings()
     fresh = " ".join(k for k in keys if k not in known)
     fns = ["tversky_loss", "tversky_index", "tversky", "dice", "ncc", "wlcc", "lcc", "ssd", "mse", "mae", "l1", "huber", "smooth_l1", "mi_loss"]
